@@ -18,7 +18,7 @@ RULE = (
     "go to a fresh temp dir. write_hif/read_hif (all classes) and write_json/read_json (undirected, string-castable "
     "labels) must give back class, nodes, edges, members or tail/head and all three attribute levels; the edge-list, "
     "bipartite edge-list (also dual) and incidence-matrix text formats must give back the same incidences under the "
-    "documented casts (int, explicit str, or none), down to 1x1 / 1xm / nx1 matrices; HIF and JSON collections (list and dict) read back key by key. "
+    "documented casts (int, float for float node labels next to int edge IDs, explicit str, or none), down to 1x1 / 1xm / nx1 matrices; HIF and JSON collections (list and dict) read back key by key. "
     "non-trivial = the file has >=2 records and (HIF/JSON) an attribute, isolated node or empty edge"
 )
 BUDGET = {"quick": 900, "thorough": 25000}
@@ -36,11 +36,15 @@ def cases(draw, tier):
     kind = draw(nets.kinds)
     spec = draw(nets.net_spec(cls=cls, kind=kind, max_edges=5, allow_empty=(cls != "SC" and draw(st.integers(0, 2)) == 0), nested=True))
     other = draw(nets.net_spec(cls=draw(st.sampled_from(["H", "DH", "SC"])), kind=kind, max_edges=3, nested=True))
-    txt = draw(nets.net_spec(cls="H", kind=kind, max_edges=5, max_size=4, allow_empty=False, with_attrs=False, min_edges=1,
+    # text formats: also float node labels next to the (int) edge IDs, read back with nodetype=float
+    tk = draw(st.integers(0, 7))
+    tkind = "float" if tk == 0 else ("uni" if tk == 1 else kind)  # "uni": non-ASCII string labels, for the encoding argument
+    txt = draw(nets.net_spec(cls="H", kind=tkind, max_edges=5, max_size=4, allow_empty=False, with_attrs=False, min_edges=1,
                              ids=draw(st.sampled_from(["auto", "perm", "gap", "str"]))))
     shape = draw(st.sampled_from([None, None, [1, 1], [1, 3], [3, 1], [2, 2]]))
     return {"spec": spec, "other": other, "text": txt, "delim": draw(st.sampled_from(DELIMS)), "shape": shape, "explicit_str": draw(st.booleans()),
-            "coll": draw(st.sampled_from(["list", "dict"])), "cname": draw(st.sampled_from(["", "c", "my_set"]))}
+            "coll": draw(st.sampled_from(["list", "dict"])), "cname": draw(st.sampled_from(["", "c", "my_set"])),
+            "encoding": draw(st.sampled_from([None, None, "utf-8", "latin-1"])), "default_delim": draw(st.integers(0, 5)) == 0}
 
 
 def strategy(tier):
@@ -131,37 +135,44 @@ def _run(case, ctx, tmp):
     tn, te = list(T.nodes), list(T.edges)
     # documented casts: int for int labels; for string labels either no cast or an explicit `str`
     strcast = str if case.get("explicit_str") else None
-    nt = int if homogeneous(tn, int) else strcast
+    nt = int if homogeneous(tn, int) else (float if homogeneous(tn, float) else strcast)
     et = int if homogeneous(te, int) else strcast
     I = inc(T)
     members = T.edges.members(dtype=dict)
     if case["shape"]:
         r, c = case["shape"]
         T = xgi.Hypergraph()
-        alph = nets.NODE_KINDS[case["text"]["kind"]]
+        alph = {**nets.SPEC_KINDS, **nets.EXTRA_KINDS}[case["text"]["kind"]]
         for j in range(c):
             T.add_edge([alph[i] for i in range(r)] if j % 2 == 0 or r == 1 else [alph[0]], idx=j)
         for i in range(r):
             if alph[i] not in T.nodes:
                 T.add_node(alph[i])
         tn, te = list(T.nodes), list(T.edges)
-        nt, et = (int if homogeneous(tn, int) else None), int
+        nt, et = (int if homogeneous(tn, int) else (float if homogeneous(tn, float) else None)), int
         I = inc(T)
         members = T.edges.members(dtype=dict)
         ctx.event("shape:%dx%d" % (r, c))
+    # optional arguments: the encoding (same on both sides) and the default delimiter (a blank when writing, any whitespace when reading)
+    wk, rk = {"delimiter": delim}, {"delimiter": delim}
+    if case.get("default_delim"):
+        wk, rk, delim = {}, {}, "default"
+    if case.get("encoding"):
+        wk["encoding"] = rk["encoding"] = case["encoding"]
+        ctx.event("encoding:" + case["encoding"])
     p = os.path.join(tmp, "e.txt")
-    ok, R = attempt(ctx, "edgelist", lambda: (xgi.write_edgelist(T, p, delimiter=delim), xgi.read_edgelist(p, delimiter=delim, nodetype=nt))[1])
+    ok, R = attempt(ctx, "edgelist", lambda: (xgi.write_edgelist(T, p, **wk), xgi.read_edgelist(p, nodetype=nt, **rk))[1])
     if ok:
         ctx.check([frozenset(m) for m in R.edges.members()] == [frozenset(members[e]) for e in te], ("file", "edgelist", "members-in-order"), lambda: "delimiter %r: got %r expected %r" % (delim, R.edges.members(), members))
     p = os.path.join(tmp, "b.txt")
-    ok, R = attempt(ctx, "bipartite_edgelist", lambda: (xgi.write_bipartite_edgelist(T, p, delimiter=delim), xgi.read_bipartite_edgelist(p, delimiter=delim, nodetype=nt, edgetype=et))[1])
+    ok, R = attempt(ctx, "bipartite_edgelist", lambda: (xgi.write_bipartite_edgelist(T, p, **wk), xgi.read_bipartite_edgelist(p, nodetype=nt, edgetype=et, **rk))[1])
     if ok:
         ctx.check(inc(R) == I, ("file", "bipartite_edgelist", "incidences"), lambda: "delimiter %r: got %r expected %r" % (delim, inc(R), I))
-    ok, R = attempt(ctx, "bipartite_edgelist-dual", lambda: xgi.read_bipartite_edgelist(p, delimiter=delim, nodetype=et, edgetype=nt, dual=True))
+    ok, R = attempt(ctx, "bipartite_edgelist-dual", lambda: xgi.read_bipartite_edgelist(p, nodetype=et, edgetype=nt, dual=True, **rk))
     if ok:
         ctx.check(inc(R) == {(e, n) for n, e in I}, ("file", "bipartite_edgelist", "dual"), lambda: "got %r expected dual of %r" % (inc(R), I))
     p = os.path.join(tmp, "i.txt")
-    ok, R = attempt(ctx, "incidence_matrix", lambda: (xgi.write_incidence_matrix(T, p, delimiter=delim), xgi.read_incidence_matrix(p, delimiter=delim))[1])
+    ok, R = attempt(ctx, "incidence_matrix", lambda: (xgi.write_incidence_matrix(T, p, **wk), xgi.read_incidence_matrix(p, **rk))[1])
     if ok:
         M, rd, cd = xgi.to_incidence_matrix(T, sparse=False, index=True)
         try:
